@@ -208,6 +208,15 @@ def judge(chk, kind, scen, events, states, audits, target, prop):
             elif p != prop and val != pre[1].get(p):
                 chk.violation(f"C04:other-property-changed:{kind}:{scen['op']}:{p}",
                               where + f": {p} reads {val!r}, was {pre[1].get(p)!r}", c)
+        if kind != "vdir" and "ctag" in a:
+            # what reads back is the old or the new state; the collection tag (= sync-token) a client is
+            # given must name that same state, or its next sync reports changes that did not happen
+            pre_c, post_c = audits[0].get("ctag"), audits[len(events)].get("ctag")
+            if (v == pre and a["ctag"] != pre_c and not (v == post and a["ctag"] == post_c)) or \
+                    (v == post and v != pre and a["ctag"] != post_c):
+                chk.violation(f"C04:collection-tag-names-another-state-than-the-one-that-reads-back:{kind}:{scen['op']}",
+                              where + f": members/properties read back as {'before' if v == pre else 'after'} the "
+                              f"operation, the tag is {a['ctag']} (before: {pre_c}, after: {post_c})", c)
         if a.get("dangling"):
             chk.violation(f"C04:reference-to-a-missing-object:{kind}:{scen['op']}", where + f": {a['dangling'][:3]}", c)
         if a.get("stale"):
